@@ -125,6 +125,55 @@ def _ok_return_value(v, ar, need, cg, fn) -> bool:
     return False
 
 
+def rule_ret_positions(run, prog):
+    run.rule("R-5.1b", "RET (positions): every helper whose result is consumed as a number at some resolved call site "
+             "(operand of + - < ..., augmented assignment, or bound to a name that is then used as a token position) "
+             "returns a value on every CFG path: no falling off the end, no bare return", floor=8)
+    cg = callgraph(prog)
+    POS_CONSUMERS = ("check_token", "peek_token", "skip_ws", "skip_nest", "eol", "skip_misc_specifier", "pop_tokens")
+    numeric: Dict[str, ast.AST] = {}
+    for c in cg.calls:
+        if not isinstance(c.node, ast.Call) or c.how.startswith("protocol") or c.how == "property":
+            continue
+        p = parent(c.node)
+        use = None
+        if isinstance(p, ast.BinOp) or (isinstance(p, ast.AugAssign) and p.value is c.node) or \
+                (isinstance(p, ast.Compare) and not any(isinstance(o, (ast.Is, ast.IsNot, ast.Eq, ast.NotEq, ast.In, ast.NotIn)) for o in p.ops)):
+            use = p
+        elif isinstance(p, ast.Assign) and p.value is c.node and len(p.targets) == 1 and isinstance(p.targets[0], ast.Name):
+            nm = p.targets[0].id
+            for x in walk_fn(c.caller.node):
+                if isinstance(x, ast.Call) and isinstance(x.func, ast.Attribute) and x.func.attr in POS_CONSUMERS and x.args \
+                        and any(isinstance(y, ast.Name) and y.id == nm for y in ast.walk(x.args[0])) and x.lineno >= p.lineno:
+                    use = p
+                    break
+        if use is None:
+            continue
+        for t in c.targets:
+            if t.name in ("__init__", "__new__") or t.mod.rel == "errors.py":
+                continue
+            numeric.setdefault(t.key, use)
+    for key in sorted(numeric):
+        fn = prog.fn_by_key[key]
+        g = cfg_of(fn)
+        reach = g.reachable()
+        bad = []
+        for pnode, lab in g.pred[g.exit]:
+            if pnode not in reach:
+                continue
+            node = g.nodes[pnode]
+            a = node.ast
+            if node.kind == "stmt" and isinstance(a, ast.Return):
+                if a.value is None or (isinstance(a.value, ast.Constant) and a.value.value is None):
+                    bad.append((a, "returns None"))
+            else:
+                bad.append((a if a is not None else fn.node, "falls off the end (implicit None)"))
+        run.ob("R-5.1b", f"{key}::returns-a-position", not bad,
+               f"{fn.qual} is used as a number ({text(numeric[key], 50)}) but " + "; ".join(
+                   f"{w} at line {getattr(a, 'lineno', '?')}" for a, w in bad[:3]) + ": TypeError traceback on that path",
+               bad[0][0] if bad else fn.node)
+
+
 # =========================================================================== R-5.2
 def exc_bases(prog, name: str) -> Set[str]:
     import builtins
@@ -1259,6 +1308,7 @@ def rule_value_nullability(run, prog):
 def check(run, prog):
     rule_value_nullability(run, prog)
     rule_ret(run, prog)
+    rule_ret_positions(run, prog)
     rule_exc(run, prog)
     rule_rec(run, prog)
     rule_loop(run, prog)
